@@ -5,8 +5,8 @@
 obfs4 (`obfs4.go`), as pure functions of the bytes seen so far and of the registrations that
 `GetRegistrations(originalDst)` returns: the VALID registrations tracked for the connection's phantom.
 
-Cryptography is a per-case oracle: `reveal off` is what `TagObfuscator.TryReveal` answers for the
-64-byte window at offset `off` (hex text of the revealed identifier), `marks` are the obfs4
+Cryptography is an oracle: `reveal w` is what `TagObfuscator.TryReveal` answers for the 64-byte
+window `w` under the station's keys (hex text of the revealed identifier), `marks` are the obfs4
 registrations whose HMAC mark is found at the tail of the buffer.
 -/
 namespace CJ.Wrap
@@ -70,8 +70,11 @@ structure PLoop where
   tryAgain : Bool := false
   wrong : Bool := false
 
+/-- `data.Bytes()[off : off+64]` (the caller has checked the bounds) -/
+def window (d : Bytes) (off : Nat) : Bytes := (d.drop off).take prefixTagLen
+
 /-- one iteration of the `for id, prefix := range t.SupportedPrefixes` loop; `inl v` = return `v` -/
-def prefixIter (reveal : Nat → Option String) (regs : List RegView) (d : Bytes) (st : PLoop)
+def prefixIter (reveal : Bytes → Option String) (regs : List RegView) (d : Bytes) (st : PLoop)
     (e : PrefixEntry) : Verdict ⊕ PLoop :=
   if !staticOk e d then .inr st
   else if d.length < e.minLen then .inr { st with tryAgain := true }
@@ -79,7 +82,7 @@ def prefixIter (reveal : Nat → Option String) (regs : List RegView) (d : Bytes
   else if d.length < e.maxLen then .inr st
   else if d.length < e.offset + prefixTagLen then .inl .panic        -- slice out of range
   else
-    match reveal e.offset with
+    match reveal (window d e.offset) with
     | none => .inr st
     | some id =>
       match findReg regs id with
@@ -89,7 +92,7 @@ def prefixIter (reveal : Nat → Option String) (regs : List RegView) (d : Bytes
         else if r.prefixParam != some (some e.id) then .inr { st with wrong := true }
         else .inl (.found r.rid (e.offset + prefixTagLen))
 
-def prefixLoop (reveal : Nat → Option String) (regs : List RegView) (d : Bytes) :
+def prefixLoop (reveal : Bytes → Option String) (regs : List RegView) (d : Bytes) :
     PLoop → List PrefixEntry → Verdict
   | st, [] =>
     if !st.tryAgain && st.wrong then .errIncorrectPrefix
@@ -100,7 +103,7 @@ def prefixLoop (reveal : Nat → Option String) (regs : List RegView) (d : Bytes
     | .inr st' => prefixLoop reveal regs d st' es
 
 /-- `prefix.Transport.WrapConnection`; `table` is the supported-prefix map in iteration order -/
-def wrapPrefix (table : List PrefixEntry) (reveal : Nat → Option String) (regs : List RegView)
+def wrapPrefix (table : List PrefixEntry) (reveal : Bytes → Option String) (regs : List RegView)
     (d : Bytes) : Verdict :=
   if d.length < prefixTagLen then .tryAgain
   else prefixLoop reveal regs d {} table
